@@ -163,7 +163,7 @@ namespace xtl
         using base_value_type = typename base_type::base_value_type;
         using size_type = typename base_type::size_type;
 
-        xoptional_array() = default;
+        xoptional_array();
         xoptional_array(size_type s, const base_value_type& v);
 
         template <class CTO, class CBO>
@@ -493,6 +493,12 @@ namespace xtl
     /**********************************
      * xoptional_array implementation *
      **********************************/
+
+    template <class T, std::size_t I, class BC>
+    xoptional_array<T, I, BC>::xoptional_array()
+        : base_type(I, missing<T>())
+    {
+    }
 
     template <class T, std::size_t I, class BC>
     xoptional_array<T, I, BC>::xoptional_array(size_type s, const base_value_type& v)
